@@ -11,7 +11,10 @@ Rej(prop, dev) == PrintT(<<"REJ", l, prop, dev>>)
 
 JudgeDoc(e) ==
     IF e.ret # "ok" THEN Rej("C03", IF e.ret = "panic" THEN "marshal-panicked" ELSE "marshal-returned-error")
-    ELSE /\ IF WellFormed(e.doc, e.out) /\ NoDupLinkage(e.out) THEN TRUE ELSE Rej("C03", "NONE")
+    \* (e.doc.handdup: the included list was filled by hand and repeats a primary resource - the clause
+    \* about pairs appearing once speaks of lists built by Include, so it is not applied there)
+    ELSE /\ IF WellFormed(e.doc, e.out) /\ (e.doc.handdup \/ NoDupLinkage(e.out)) THEN TRUE
+            ELSE Rej("C03", IF (e.doc.handdup \/ NoDupLinkage(e.out)) /\ Dev_SelfLinkOfResourceWithoutID(e.doc, e.out) THEN "Dev_SelfLinkOfResourceWithoutID" ELSE "NONE")
          \* (a document whose primary resource cannot be encoded - e.doc.unenc - is judged for its form only:
          \* the other three properties speak of what a resource exposes, and this one exposes nothing)
          /\ IF e.doc.unenc \/ Selected(e.doc, e.out) THEN TRUE ELSE Rej("C04", "NONE")
